@@ -280,18 +280,18 @@ class ConcatWorld:
 
 class ConcatScenario(BaseScenario):
     KINDS = {
-        "mk_hole": 8, "add_depth": 10, "add_interval": 8, "add_to_pg": 6, "set_values": 8, "rename_data": 2, "rename_hole": 3,
+        "mk_hole": 8, "add_depth": 10, "add_interval": 8, "add_to_pg": 6, "add_obj_data": 3, "set_values": 8, "rename_data": 2, "rename_hole": 3,
         "rm_data_ws": 5, "rm_data_parent": 5, "rm_hole_ws": 3, "rm_hole_parent": 3, "rm_pg": 2, "rm_protected": 2,
         "copy_hole": 3, "copy_group": 6, "table": 3, "set_attr": 3,
         "gc": 4, "close_reopen": 6, "reopen_same": 2, "drop": 1,
     }
     PROFILE = {
-        "C05": {"rm_data_ws": 10, "rm_data_parent": 8, "rm_hole_ws": 6, "rm_hole_parent": 5, "rm_pg": 4, "rm_protected": 6},
+        "C05": {"add_obj_data": 5, "rm_data_ws": 10, "rm_data_parent": 8, "rm_hole_ws": 6, "rm_hole_parent": 5, "rm_pg": 4, "rm_protected": 6},
         "C12": {"copy_hole": 8, "copy_group": 10},
         "C09": {"set_values": 12, "rm_data_ws": 8},
         "C03": {"set_attr": 12, "rename_hole": 8, "rename_data": 6, "close_reopen": 10},
     }
-    MUT = {"mk_hole", "add_depth", "add_interval", "add_to_pg", "set_values", "rename_data", "rename_hole", "rm_data_ws", "rm_data_parent",
+    MUT = {"mk_hole", "add_depth", "add_interval", "add_to_pg", "add_obj_data", "set_values", "rename_data", "rename_hole", "rm_data_ws", "rm_data_parent",
            "rm_hole_ws", "rm_hole_parent", "rm_pg", "copy_hole", "copy_group", "set_attr"}
 
     def __init__(self, prop="C04"):
@@ -371,6 +371,44 @@ class ConcatScenario(BaseScenario):
 
     def gen_add_interval(self, w, r):
         return self._gen_add(w, r, "interval")
+
+    def gen_add_obj_data(self, w, r):
+        t = w.pick_hole(r)
+        if t is None:
+            return None
+        name = r.choice(["note", "num"])
+        return {"t": t, "name": name, "dk": "text" if name == "note" else "float", "dseed": r.getrandbits(32)}
+
+    def do_add_obj_data(self, w, op):
+        """Hole-level data (explicit association OBJECT): belongs to no table / property group."""
+        res = w.res_hole(op["t"])
+        if res is None:
+            return "skipped"
+        g, hu = res
+        hmodel = w.groups[g]["holes"][hu]
+        name = op["name"] if op["name"] not in hmodel["data"] else f"{op['name']}_{op['id']}"
+        vr = random.Random(op["dseed"])
+        if op["dk"] == "text":
+            vals, spec = [f"note {vr.randrange(1000)}"], None
+            spec = {"values": np.array(vals), "association": "OBJECT", "type": "TEXT"}
+        else:
+            vals = [build.fval(vr)]
+            spec = {"values": np.array(vals, dtype=float), "association": "OBJECT"}
+        if w.label_dk.setdefault((g, name), op["dk"]) != op["dk"]:
+            w.mixed = True
+        hole = w.hole_ent(g, hu)
+        w.touched = {hu}
+        w.adding_dk = op["dk"]
+        _, outcome = self.call(w, lambda: hole.add_data({name: spec}), what="add_obj_data")
+        if outcome != "ok":
+            del hole
+            return outcome
+        new_names = w.adopt_hole(g, hu, hole, {name: vals}, "add_obj_data:adopt", allow_aux=False)
+        del hole
+        for nm in new_names:
+            w.touched.add(hmodel["data"][nm]["uid"])
+        w.sim.probe("add_obj_data")
+        return "ok"
 
     def gen_add_to_pg(self, w, r):
         t = w.pick_hole(r, lambda h: bool(h["pgs"]))
